@@ -140,7 +140,7 @@ func (ch c04) Run(c *core.Ctx) {
 	nb := ch.Batches(c.Tier)
 	ncanon, nmut := 11, 2500
 	if c.Tier == "thorough" {
-		ncanon, nmut = 40, 60000
+		ncanon, nmut = 40, 400000
 	}
 	canon := c04canonical(core.NewRng(c.Seed, "C04canon", 0, 0), ncanon)
 	cases := 0
